@@ -265,6 +265,29 @@ func genScenario(r *rand.Rand, id int, class string) *Scenario {
 		for i := 0; i < 2+r.Intn(4); i++ {
 			sc.Faults = append(sc.Faults, Fault{AtUs: 2000 + r.Int63n(int64(k)*300), Kind: "idle", N: 1})
 		}
+	case "regen": // the pool of the address is closed by CloseAddr and re-created by the next call, two or three times, during
+		// traffic: every GENERATION of the pool is followed white-box (each starts its ids at 1 again); sync calls, async
+		// calls with deadline and (when nothing is killed) async calls without deadline
+		sc.NHosts = 1 + r.Intn(2)
+		sc.DelayUs = 500 + r.Int63n(6000)
+		k := 12 + r.Intn(40)
+		span := int64(60000)
+		for i := 0; i < k; i++ {
+			cs := CallerSpec{Host: r.Intn(sc.NHosts), Kind: r.Intn(4), TimeoutMs: 400, CancelUs: -1, StartUs: r.Int63n(span), Async: r.Intn(3) == 0}
+			switch r.Intn(8) {
+			case 0:
+				cs.CancelUs = r.Int63n(20000)
+			case 1:
+				cs.TimeoutMs = 5 + r.Intn(40)
+			}
+			if cs.Async && cs.CancelUs < 0 && r.Intn(2) == 0 {
+				cs.Long = true
+			}
+			sc.Callers = append(sc.Callers, cs)
+		}
+		for i, m := 0, 2+r.Intn(2); i < m; i++ {
+			sc.Faults = append(sc.Faults, Fault{AtUs: 3000 + int64(i)*span/int64(m) + r.Int63n(span/int64(m)-4000), Kind: "closeaddr"})
+		}
 	case "rcglue": // the resource-control / RPC-interceptor wrapper (NewInterceptedClient): a scripted resource-group controller gives
 		// groups a priority (used only when the request sets no override priority), lets OnRequestWait / OnResponseWait fail
 		// for some calls, treats one group as background; RPC interceptors on some contexts; sync and async calls, small limit
